@@ -101,7 +101,7 @@ pub fn strategy_for(prop: &str) -> BoxedStrategy<BgCase> {
     ];
     let th = (proptest::collection::vec(op, 1..7), any::<bool>(), prop_oneof![2 => Just(0u16), 3 => 0u16..3000, 1 => 3000u16..15000], adapters)
         .prop_map(|(ops, exit_now, start_delay_us, adapter_polls)| BgThread { ops, exit_now, start_delay_us, adapter_polls });
-    (prop_oneof![3 => proptest::collection::vec(th.clone(), 1..4), 1 => proptest::collection::vec(th, 4..9)], any::<bool>(), prop_oneof![4 => Just(0u8), 1 => 32u8..48])
+    (prop_oneof![3 => proptest::collection::vec(th.clone(), 1..4), 1 => proptest::collection::vec(th, 4..9)], any::<bool>(), prop_oneof![8 => Just(0u8), 2 => 32u8..48, 1 => 64u8..80, 1 => 128u8..140])
         .prop_map(|(threads, finish_root_first, pool)| BgCase { threads, finish_root_first, pool })
         .boxed()
 }
